@@ -73,6 +73,11 @@ RULES: Dict[str, Dict[str, Any]] = {
     "jax2onnx/plugins/dm_pix/space_to_depth.py": dict(spec=Spec("trailing", {}), dom="none", param="-", operands="x+params"),
     PJ + "numpy/matmul.py": dict(spec=Spec("matmul", {}), dom="none", param="-", operands="contract"),
     PJ + "numpy/dot.py": dict(spec=Spec("dot", {}), dom="none", param="-", operands="contract"),
+    PJ + "numpy/trilu.py": dict(spec=Spec("trailing", {}, const={"_k": 2}), dom="none", param="-", operands="x+params"),
+    PJ + "numpy/pad.py": dict(spec=Spec("whole", {}), dom="none", param="-", operands="x+params", extra={"pad_width": ((1, 1),), "constant_value": 0}),
+    PJ + "numpy/diag.py": dict(spec=Spec("diag", {}), dom="none", param="-", operands="x+params"),
+    PJ + "numpy/outer.py": dict(spec=Spec("outer", {}), dom="none", param="-", operands="pair"),
+    PJ + "numpy/searchsorted.py": dict(spec=Spec("second", {}), dom="none", param="-", operands="table+queries"),
     PJ + "numpy/linspace.py": dict(spec=Spec("linspace", {"axis": "axis"}), dom="axis_out", param="axis", operands="linspace"),
 }
 
@@ -205,6 +210,11 @@ def _cases(entry: Dict[str, Any], fi: FuncInfo) -> Iterable[Tuple[List[Optional[
                     n_ops = len(st.targets[0].elts[0].elts)
             W = tuple(f"w{i}" for i in range(r))
             ops = [([L] + [W] * (n_ops - 1), [[bd] + [None] * (n_ops - 1) for bd in range(r + 1)])]
+        elif kind_ops == "pair":
+            bds = [[b0, b1] for b0 in list(range(r + 1)) + [None] for b1 in (0, 1, None) if not (b0 is None and b1 is None)]
+            ops = [([L, ("i0",)], bds)]
+        elif kind_ops == "table+queries":
+            ops = [([("k",), L], [[None, b] for b in range(r + 1)])]
         elif kind_ops == "contract":
             if r != 1:
                 continue
